@@ -26,7 +26,7 @@ Not decided: interleaving with a second client (InnoDB locking semantics).
 from __future__ import annotations
 
 import ast
-from typing import Dict, List, Optional, Tuple
+from typing import Dict, List, Optional, Sequence, Set, Tuple
 
 from engines import c0910facts as cf
 from engines import linform as lf
@@ -58,54 +58,125 @@ def _is_write(e: sf.Embedded) -> bool:
     return any(sf.written_tables(st) or st.kind == 'call' for st in e.stmts())
 
 
+def _result_tests(g: pf.CFG, var: str) -> Dict[int, str]:
+    """test nodes on the truthiness / None-ness of `var` -> label of the edge taken when a row was found."""
+    out: Dict[int, str] = {}
+    for t in g.find(lambda n: n.kind == 'test'):
+        a = t.ast
+        neg = False
+        while isinstance(a, ast.UnaryOp) and isinstance(a.op, ast.Not):
+            neg, a = not neg, a.operand
+        found: Optional[bool] = None
+        if isinstance(a, ast.Name) and a.id == var:
+            found = True
+        elif isinstance(a, ast.Compare) and len(a.ops) == 1 and isinstance(a.left, ast.Name) and a.left.id == var and isinstance(a.comparators[0], ast.Constant) and a.comparators[0].value is None:
+            found = isinstance(a.ops[0], (ast.IsNot, ast.NotEq))
+        if found is not None:
+            out[t.id] = 'T' if found != neg else 'F'
+    return out
+
+
 def r1(ctx: Ctx, m: pf.Module) -> None:
     for qual, table, keycols, what in (('_create_batch.insert', 'batches', {'token', 'user'}, 'batch'),
                                        ('_create_batch_update.update', 'batch_updates', {'batch_id', 'token'}, 'update')):
         fn = m.func(qual)
         cons = f'{FE}::{qual}'
-        ctx.check(any(pf.dotted(d.func) == 'transaction' for d in fn.decorator_list if isinstance(d, ast.Call)), 'R1', cons + '::transaction', 'look-up and insert are not in one @transaction', m.path, fn.lineno)
+        decs = [pf.dotted(d.func) if isinstance(d, ast.Call) else pf.dotted(d) for d in fn.decorator_list]
+        if not any(d == 'transaction' for d in decs):
+            ctx.need(not decs, f'{cons}: decorated with {decs}; whether look-up and insert share a transaction is not decided')
+        ctx.check(any(d == 'transaction' for d in decs), 'R1', cons + '::transaction', 'look-up and insert are not in one @transaction (the function that holds them is not decorated)', m.path, fn.lineno)
         embs = _embs(m, fn)
-        look = None
+        # the token look-up: a SELECT from the table whose WHERE compares the token column with a parameter
+        cands = []
         for e in embs:
             for st in e.stmts():
-                if st.kind == 'select' and sf.table_names(st.frm) == [table]:
-                    cols = {text(c.left).lower().split('.')[-1] for c in sf.conjuncts(st.where) if c.kind == 'bin' and c.op == '=' and c.right.kind == 'param'}
-                    if cols == keycols and st.lock == 'FOR UPDATE' and e.receiver == 'tx':
-                        look = e
-                        break
-            if look:
-                break
-        ctx.check(look is not None, 'R1', cons + '::token look-up', f'no `SELECT .. FROM {table} WHERE {sorted(keycols)} .. FOR UPDATE` on the transaction precedes the insert', m.path, fn.lineno)
-        if look is None:
-            continue
+                if st.kind == 'select' and st.frm is not None and table in [t.lower() for t in sf.table_names(st.frm)]:
+                    cols = {c.left.parts[-1].lower() for c in sf.conjuncts(st.where) if c.kind == 'bin' and c.op == '=' and c.left.kind == 'col' and c.right.kind == 'param'} | \
+                           {c.right.parts[-1].lower() for c in sf.conjuncts(st.where) if c.kind == 'bin' and c.op == '=' and c.right.kind == 'col' and c.left.kind == 'param'}
+                    if 'token' in cols:
+                        cands.append((e, st, cols))
+        ctx.need(len(cands) == 1, f'{cons}: expected one look-up of {table} by token, found {len(cands)} (a look-up through a helper or another column is not followed)')
+        look, lst, cols = cands[0]
+        missing = keycols - cols
+        locked = (lst.lock or '').startswith('FOR UPDATE') and look.receiver.split('.')[-1] == 'tx'
+        ctx.check(not missing and locked, 'R1', cons + '::token look-up', (f'the look-up by token does not restrict {sorted(missing)}: another {what}\'s token is found' if missing else
+                  f'the token look-up is not `FOR UPDATE` on the transaction (lock: {lst.lock or "none"}, receiver {look.receiver}): two concurrent first attempts both find nothing and both insert'), m.path, look.lineno)
         g = pf.cfg(fn)
         ln = g.node_of(look.call)
-        ctx.need(ln, f'{qual}: CFG node of the look-up not found')
-        var = pf.nsrc(ln[0].ast.targets[0]) if isinstance(ln[0].ast, ast.Assign) else None
-        # the test on the look-up result that directly follows it (the variable may be reused later)
-        tests = []
-        cur = ln[0]
-        for _ in range(4):
-            nxt = [s_ for s_, lab in cur.succ if lab != 'exc']
-            if len(nxt) != 1:
-                break
-            cur = nxt[0]
-            if cur.kind == 'test' and var is not None and pf.nsrc(cur.ast) in (var, f'{var} is not None'):
-                tests = [cur]
-                break
-        returns_stored = bool(tests) and all(any(s.kind == 'return' and var in pf.nsrc(s.ast) for s, lab in t.succ if lab == 'T') for t in tests)
+        ctx.need(len(ln) == 1 and isinstance(ln[0].ast, ast.Assign) and isinstance(ln[0].ast.targets[0], ast.Name), f'{qual}: the result of the look-up is not bound to a name')
+        var = ln[0].ast.targets[0].id
+        # an edge of a test "says not found" when taking it implies the look-up result is falsy / None
+        def says_not_found(test: ast.AST, lab: str) -> bool:
+            a, want = test, (lab == 'T')
+            while isinstance(a, ast.UnaryOp) and isinstance(a.op, ast.Not):
+                a, want = a.operand, not want
+            if isinstance(a, ast.Name) and a.id == var:
+                return not want
+            if isinstance(a, ast.Compare) and len(a.ops) == 1 and isinstance(a.left, ast.Name) and a.left.id == var and isinstance(a.comparators[0], ast.Constant) and a.comparators[0].value is None:
+                return want == isinstance(a.ops[0], (ast.Is, ast.Eq))
+            if isinstance(a, ast.BoolOp):
+                # all conjuncts hold on the true side of `and`; all disjuncts fail on the false side of `or`
+                if isinstance(a.op, ast.And) and want:
+                    return any(says_not_found(v, 'T') for v in a.values)
+                if isinstance(a.op, ast.Or) and not want:
+                    return any(says_not_found(v, 'F') for v in a.values)
+            return False
+        reassigned = lambda n: n is not ln[0] and isinstance(n.ast, (ast.Assign, ast.AnnAssign)) and any(isinstance(x, ast.Name) and x.id == var and isinstance(x.ctx, ast.Store) for x in ast.walk(n.ast)) and n.kind == 'stmt'  # noqa: E731
+        # tests that look at THIS value of the name (reached from the look-up before the name is bound again)
+        about = g.reachable_from(ln[0], avoid=reassigned)
+        edge_found = lambda a, b, lab: lab != 'exc' and not (a.kind == 'test' and a.id in about and a.ast is not None and lab in ('T', 'F') and says_not_found(a.ast, lab))  # noqa: E731
+        never = lambda n: False  # noqa: E731
+        tests_on_var = [t for t in g.find(lambda n: n.kind == 'test') if t.ast is not None and var in pf.names_in(t.ast)]
+        ctx.need(tests_on_var, f'{qual}: the result `{var}` of the token look-up is never tested')
         writes = [n for e in embs if _is_write(e) for n in g.node_of(e.call)]
         # nested helper calls that write (e.g. _create_job_group) count as writes too
-        writes += g.find(lambda n: any(pf.dotted(c.func) in ('_create_job_group',) for c in pf.node_calls(n)))
+        helper_writers = {f.name for f in m.tree.body if isinstance(f, (ast.FunctionDef, ast.AsyncFunctionDef)) and any(_is_write(e) for e in sf.embedded_in(m) if e.fn is f)}
+        writes += g.find(lambda n: any(pf.dotted(c.func) in helper_writers for c in pf.node_calls(n)))
         ctx.need(writes, f'{qual}: no write found')
-        ok = returns_stored and all(g.path_avoiding(g.entry, lambda n, w=w: n is w, lambda n: False, edge_ok=lambda a, b, lab: not (a in tests and lab == 'F')) is None for w in writes) and \
-            all(g.dominated_by(w, lambda n: n is ln[0]) for w in writes)
-        ctx.check(ok, 'R1', cons + '::return before insert', f'a re-sent {what} creation request does not return the ids stored under its token before anything is inserted '
-                  f'(a second {what} would be created or the request would fail on the unique key)', m.path, look.lineno)
+        # (1) no write is reachable from the look-up while the row may have been found (a path on which no test said "not found" and the name was not re-bound)
+        leak = None
+        for w in writes:
+            pth = g.path_avoiding(ln[0], lambda n, w=w: n is w, never, edge_ok=edge_found)
+            if pth is not None:
+                leak = pth
+                break
+        # (2) every write comes after the look-up
+        dominated = all(g.dominated_by(w, lambda n: n is ln[0]) for w in writes)
+        # (3) on the found side the stored row is handed back
+        rets = [n for n in g.find(lambda n: n.kind == 'return' and n.id in about) if g.path_avoiding(ln[0], lambda x, n=n: x is n, reassigned, edge_ok=edge_found) is not None]
+        returns_stored = any(var in pf.names_in(n.ast) for n in rets)
+        if leak is None and dominated and not returns_stored:
+            raise AnalysisError(f'{qual}: what a re-sent request is answered with when its token is found ({[n.text()[:40] for n in rets] or "no return"}) is not a return of the stored row; not judged')
+        ctx.check(leak is None and dominated and returns_stored, 'R1', cons + '::return before insert', f'a re-sent {what} creation request does not return the ids stored under its token before anything is inserted '
+                  f'(a second {what} would be created or the request would fail on the unique key): ' + (('an insert is reachable although the token was found: ' + ' -> '.join(x.text()[:40] for x in leak if x.kind in ('test', 'stmt', 'return'))[:300])
+                  if leak is not None else 'an insert is not preceded by the look-up'), m.path, look.lineno)
+
+
+def _caller_roles(m: pf.Module, fname: str, keys: Sequence[str]) -> Dict[str, str]:
+    """spec key -> parameter of module-level function `fname` that receives `<spec>['key']` / `<spec>.get('key' ..)` at its call sites (all call sites must agree)."""
+    fdef = m.func(fname)
+    pos = [a.arg for a in fdef.args.posonlyargs + fdef.args.args]
+    out: Dict[str, Set[str]] = {k: set() for k in keys}
+    for caller in [f for f in m.tree.body if isinstance(f, (ast.FunctionDef, ast.AsyncFunctionDef))]:
+        for c in pf.walk_shallow(caller):
+            if isinstance(c, ast.Call) and pf.dotted(c.func) == fname:
+                bound = dict(zip(pos, c.args))
+                bound.update({k.arg: k.value for k in c.keywords if k.arg})
+                for p_, a in bound.items():
+                    a = pf.expand_locals(caller, a)
+                    key = None
+                    if isinstance(a, ast.Subscript):
+                        key = pf.const_str(a.slice)
+                    elif isinstance(a, ast.Call) and isinstance(a.func, ast.Attribute) and a.func.attr == 'get' and a.args:
+                        key = pf.const_str(a.args[0])
+                    if key in out:
+                        out[key].add(p_)
+    return {k: next(iter(v)) for k, v in out.items() if len(v) == 1}
 
 
 def r2(ctx: Ctx, m: pf.Module) -> None:
     fn = m.func('_create_batch_update.update')
+    outer = m.func('_create_batch_update')
     embs = _embs(m, fn)
     last = None
     ins = None
@@ -120,39 +191,66 @@ def r2(ctx: Ctx, m: pf.Module) -> None:
     cons = f'{FE}::_create_batch_update.update'
     ok = [(text(x).lower().split('.')[-1], d) for x, d in st.order] == [('update_id', 'DESC')] and text(st.limit) == '1' and st.lock == 'FOR UPDATE' and e.receiver == 'tx' and \
         sr.has_eq(st.where, 'batch_id', '%s') and len(sf.conjuncts(st.where)) == 1
+    if not ok:
+        # evidence: a plain `col = %s` / ORDER BY <col> / LIMIT <n> statement that differs; anything more elaborate is not judged
+        simple = all(c.kind == 'bin' and c.op == '=' and {c.left.kind, c.right.kind} == {'col', 'param'} for c in sf.conjuncts(st.where)) and all(x.kind == 'col' for x, _d in st.order)
+        ctx.need(simple, f'{cons}: the read of the previous update `{text(st)[:100]}` is not a plain keyed ORDER BY .. LIMIT statement')
     ctx.check(ok, 'R2', cons + '::last update read', 'the previous update is not read as ORDER BY update_id DESC LIMIT 1 FOR UPDATE on the transaction (ranges could overlap or leave gaps)', m.path, e.lineno)
     g = pf.cfg(fn)
     var = pf.nsrc(g.node_of(e.call)[0].ast.targets[0])
-    want = {
-        'update_id': lf.Lin({f"{var}['update_id']": 1}, 1),
-        'update_start_job_id': lf.Lin({f"{var}['start_job_id']": 1, f"{var}['n_jobs']": 1}, 0),
-        'update_start_job_group_id': lf.Lin({f"{var}['start_job_group_id']": 1, f"{var}['n_job_groups']": 1}, 0),
-    }
-    defs = pf.assignments(fn)
-    for name, w in want.items():
-        vals = [v for v in defs.get(name, []) if isinstance(v, ast.expr)]
-        got = []
-        for v in vals:
-            # strip int(...) wrappers
-            class _T(ast.NodeTransformer):
-                def visit_Call(self, node):
-                    self.generic_visit(node)
-                    if pf.dotted(node.func) == 'int' and len(node.args) == 1:
-                        return node.args[0]
-                    return node
-            got.append(lf.lin(_T().visit(ast.parse(pf.src(v), mode='eval').body)))
-        firsts = [x for x in got if x.is_const()]
-        nexts = [x for x in got if not x.is_const()]
-        ok = len(nexts) == 1 and nexts[0] == w and len(firsts) == 1 and firsts[0].const == 1
-        ctx.check(ok, 'R2', cons + f'::{name}', f'{name} is computed as {[pf.nsrc(v) for v in vals]}; expected 1 for the first update and previous start + previous count (update_id: previous + 1) afterwards', m.path, fn.lineno)
     ie, ist = ins
     elts = sr.args_tuple(fn, ie.call.args[1])
     ctx.need(elts is not None and ist.cols is not None and len(elts) == len(ist.cols), '_create_batch_update: cannot bind INSERT INTO batch_updates')
-    d = {c.lower(): pf.nsrc(x) for c, x in zip(ist.cols, elts)}
-    wantb = {'batch_id': 'batch_id', 'update_id': 'update_id', 'token': 'update_token', 'start_job_group_id': 'update_start_job_group_id', 'n_job_groups': 'n_job_groups',
-             'start_job_id': 'update_start_job_id', 'n_jobs': 'n_jobs', 'committed': 'False'}
-    gotb = {k: d.get(k) for k in wantb}
-    ctx.check(gotb == wantb, 'R2', cons + '::stored range', f'the reserved range is stored as {gotb}, expected {wantb}', m.path, ie.lineno)
+    stored = {c.lower(): x for c, x in zip(ist.cols, elts)}
+    want = {
+        'update_id': lf.Lin({f"{var}['update_id']": 1}, 1),
+        'start_job_id': lf.Lin({f"{var}['start_job_id']": 1, f"{var}['n_jobs']": 1}, 0),
+        'start_job_group_id': lf.Lin({f"{var}['start_job_group_id']": 1, f"{var}['n_job_groups']": 1}, 0),
+    }
+    defs = pf.assignments(fn)
+    for colname, w in want.items():
+        ctx.need(colname in stored, f'{cons}: column {colname} is not in the column list of INSERT INTO batch_updates')
+        x = stored[colname]
+        vals = [v for v in defs.get(x.id, []) if isinstance(v, ast.expr)] if isinstance(x, ast.Name) else [x]
+        got = []
+        for v in vals:
+            try:
+                got.append(lf.lin(cf.strip_int(v)))
+            except AnalysisError:
+                raise AnalysisError(f'{cons}: `{pf.nsrc(v)}` stored as {colname} is not linear')
+        firsts = [y for y in got if y.is_const()]
+        nexts = [y for y in got if not y.is_const()]
+        ctx.need(len(nexts) == 1 and len(firsts) <= 1, f'{cons}: the value stored as {colname} has {len(got)} definitions ({[pf.nsrc(v) for v in vals]}): first-update / later-update cases not recognised')
+        ok = nexts[0] == w and (not firsts or firsts[0].const == 1)
+        ctx.check(ok, 'R2', cons + f'::{colname}', f'{colname} is stored as {[pf.nsrc(v) for v in vals]}; expected 1 for the first update and previous start + previous count (update_id: previous + 1) afterwards '
+                  f'(previous = `{var}`, the row read with ORDER BY update_id DESC LIMIT 1)', m.path, fn.lineno)
+    # the other columns: the key the look-up uses, the counts the NEXT update will add to its starts, not committed
+    roles = _caller_roles(m, '_create_batch_update', ('token', 'n_jobs', 'n_job_groups'))
+    oparams = [a.arg for a in outer.args.posonlyargs + outer.args.args + outer.args.kwonlyargs]
+    gotb = {}
+    bad = []
+    for colname in ('token', 'n_jobs', 'n_job_groups'):
+        ctx.need(colname in stored and colname in roles, f'{cons}: column {colname} of INSERT INTO batch_updates / the parameter of _create_batch_update that carries the request\'s {colname} not found')
+        x = pf.expand_locals(outer, pf.expand_locals(fn, stored[colname]))
+        gotb[colname] = pf.nsrc(x)
+        if isinstance(x, ast.Name) and x.id in oparams:
+            if x.id != roles[colname]:
+                bad.append(f'{colname} <- parameter `{x.id}` (the request\'s {colname} arrives in `{roles[colname]}`)')
+        else:
+            ctx.need(isinstance(x, ast.Constant), f'{cons}: value `{pf.nsrc(x)}` stored as {colname} is not a parameter of _create_batch_update')
+            bad.append(f'{colname} <- literal {pf.nsrc(x)}')
+    for colname, wantv in (('batch_id', 'batch_id'),):
+        ctx.need(colname in stored, f'{cons}: column {colname} missing')
+        x = pf.expand_locals(outer, pf.expand_locals(fn, stored[colname]))
+        if not (isinstance(x, ast.Name) and x.id in oparams):
+            raise AnalysisError(f'{cons}: value `{pf.nsrc(x)}` stored as batch_id is not a parameter')
+        gotb[colname] = x.id
+    ctx.need('committed' in stored, f'{cons}: column committed is not in the column list')
+    cm_ = pf.expand_locals(fn, stored['committed'])
+    ctx.need(isinstance(cm_, ast.Constant), f'{cons}: committed is stored as `{pf.nsrc(cm_)}`')
+    if cm_.value not in (False, 0):
+        bad.append(f'committed <- {cm_.value!r}')
+    ctx.check(not bad, 'R2', cons + '::stored range', f'the reserved range is stored with {bad}: the next update computes its starts from these columns, and the update must start uncommitted', m.path, ie.lineno, detail=gotb)
 
 
 def r3(ctx: Ctx, m: pf.Module) -> None:
@@ -194,12 +292,26 @@ def r3(ctx: Ctx, m: pf.Module) -> None:
     ctx.check(bool(ok), 'R3', cons + '::duplicate returns', f'a duplicate-key error on INSERT INTO jobs does not leave the transaction function ({why}): the staging / cancellable counters of an '
               'already inserted bunch would be added again', m.path, first.lineno, detail=why)
     counters = [e for e in writes if any(st.kind == 'insert' and st.table.lower() in ('job_groups_inst_coll_staging', 'job_group_inst_coll_cancellable_resources') for st in e.stmts())]
-    ctx.check(len(counters) == 2 and all(c.lineno > first.lineno for c in counters), 'R3', cons + '::counters after jobs', 'counter-bearing inserts do not all come after INSERT INTO jobs', m.path, fn.lineno)
+    ctx.need(len(counters) == 2, f'{cons}: expected the two counter-bearing inserts (staging, cancellable resources) in this function, found {len(counters)} (moved into a helper?)')
+    g = pf.cfg(fn)
+    fnode = g.node_of(first.call)
+    ctx.need(len(fnode) == 1, f'{cons}: CFG node of INSERT INTO jobs not found')
+    early = [c for c in counters if not all(g.dominated_by(n_, lambda x: x is fnode[0]) for n_ in g.node_of(c.call))]
+    ctx.check(not early, 'R3', cons + '::counters after jobs', f'the counter-bearing insert at line {early[0].lineno if early else 0} can run before INSERT INTO jobs has found out whether the bunch is a replay', m.path, fn.lineno)
     outer = m.func('_create_jobs')
-    wrap = m.func('_create_jobs.write_and_insert') if m.has_func('_create_jobs.write_and_insert') else None
-    ok = wrap is not None and any(pf.dotted(d.func) == 'transaction' for d in wrap.decorator_list if isinstance(d, ast.Call)) and \
-        any(isinstance(c, ast.Call) and pf.dotted(c.func) == 'insert_jobs_into_db' for c in ast.walk(wrap))
-    ctx.check(ok, 'R3', f'{FE}::_create_jobs.write_and_insert::one transaction', 'the bunch inserts are not executed inside one @transaction', m.path, outer.lineno)
+    # whoever calls the transaction function passes it a transaction: the caller is decorated with @transaction(..) (or the function itself is)
+    def in_txn(f: pf.FuncDef) -> bool:
+        return any((pf.dotted(d.func) if isinstance(d, ast.Call) else pf.dotted(d)) == 'transaction' for d in f.decorator_list)
+    nested = [f for f in ast.walk(outer) if isinstance(f, (ast.FunctionDef, ast.AsyncFunctionDef)) and f is not outer]
+    callers = [f for f in nested if f is not fn and any(isinstance(c, ast.Call) and pf.dotted(c.func) == fn.name for c in pf.walk_shallow(f))]
+    direct = [c for c in pf.walk_shallow(outer) if isinstance(c, ast.Call) and pf.dotted(c.func) == fn.name]
+    if in_txn(fn):
+        ctx.ok('R3', f'{FE}::_create_jobs::one transaction', f'{fn.name} is itself a @transaction function')
+    else:
+        ctx.need(callers or direct, f'{FE}::_create_jobs: no call of {fn.name} found (handed on as a value?)')
+        outside = [f.name for f in callers if not in_txn(f)] + (['_create_jobs'] if direct else [])
+        ctx.check(not outside, 'R3', f'{FE}::_create_jobs::one transaction', f'{fn.name} is called from {outside}, which is not a @transaction function: the inserts of a bunch are not atomic, a failure in the middle '
+                  'leaves jobs without their counters and the retry is taken for a replay', m.path, outer.lineno)
 
 
 def r4(ctx: Ctx) -> None:
@@ -364,6 +476,9 @@ def r6(ctx: Ctx, m: pf.Module) -> None:
         fn = cm.func(f'{cls}._submit')
         vals = [n.value for n in ast.walk(fn) if isinstance(n, ast.Assign) and len(n.targets) == 1 and pf.nsrc(n.targets[0]) == f'self.{attr}'
                 and any(pf.nsrc(x) == f'self.{attr}' for x in ast.walk(n.value))]
+        # `self.x += e` is `self.x = self.x + e`
+        vals += [ast.copy_location(ast.BinOp(left=ast.Attribute(value=ast.Name(id='self', ctx=ast.Load()), attr=attr, ctx=ast.Load()), op=n.op, right=n.value), n)
+                 for n in ast.walk(fn) if isinstance(n, ast.AugAssign) and pf.nsrc(n.target) == f'self.{attr}' and isinstance(n.op, (ast.Add, ast.Sub))]
         check(cm, fn, f'{cls}._submit', f'self.{attr}', vals, ('param', 0), ('attr', attr), None)
 
     # ---- server: what is stored in jobs.job_id / jobs.job_group_id --------------------------------------------------------------------------------
@@ -780,12 +895,22 @@ def r8(ctx: Ctx, m: pf.Module) -> None:
         ucalls = [c for c in ast.walk(fn) if isinstance(c, ast.Call) and pf.dotted(c.func) == '_create_batch_update']
         ctx.need(len(vcalls) == 1 and len(ucalls) == 1 and len(ucalls[0].args) >= 2, f'{cons}: validator / _create_batch_update call not recognised')
         spec = vcalls[0].args[0].id
-        tok = ucalls[0].args[1]
-        if isinstance(tok, ast.Name):
-            d_ = pf.single_def(fn, tok.id)
-            tok = d_ if isinstance(d_, ast.expr) else tok
-        ok = isinstance(tok, ast.Subscript) and pf.nsrc(tok.value) == spec and pf.const_str(tok.slice) == 'token'
-        ctx.check(ok, 'R8', cons + '::update token argument', f'{h} validates `{spec}` but looks the update up / creates it under the token `{pf.nsrc(tok)}`: a re-sent request is not recognised by the '
+        udef = m.func('_create_batch_update')
+        upos = [a.arg for a in udef.args.posonlyargs + udef.args.args]
+        ub = _bound_args(udef, ucalls[0])
+        ctx.need(len(upos) >= 2 and upos[1] in ub, f'{cons}: the token argument of the _create_batch_update call not found')
+        tok = pf.expand_locals(fn, ub[upos[1]])
+        base = key = None
+        if isinstance(tok, ast.Subscript):
+            base, key = tok.value, pf.const_str(tok.slice)
+        elif isinstance(tok, ast.Call) and isinstance(tok.func, ast.Attribute) and tok.func.attr in ('get', 'pop') and tok.args:
+            base, key = tok.func.value, pf.const_str(tok.args[0])
+        same_spec = base is not None and pf.nsrc(pf.expand_locals(fn, base)) == pf.nsrc(pf.expand_locals(fn, ast.Name(id=spec, ctx=ast.Load())))
+        if not (same_spec and key == 'token'):
+            fresh = isinstance(tok, ast.Constant) or any(isinstance(c, ast.Call) and (pf.dotted(c.func) or '') in cf.FRESH_GENERATORS for c in ast.walk(tok))
+            other_field = base is not None and key is not None
+            ctx.need(fresh or other_field, f'{cons}: the token handed to _create_batch_update (`{pf.nsrc(tok)[:80]}`) is not a field of a request spec; where it comes from is not followed')
+        ctx.check(same_spec and key == 'token', 'R8', cons + '::update token argument', f'{h} validates `{spec}` but looks the update up / creates it under the token `{pf.nsrc(tok)}`: a re-sent request is not recognised by the '
                   'token the client sent (or two different requests share one)', m.path, ucalls[0].lineno)
         if creates:
             bcalls = [c for c in ast.walk(fn) if isinstance(c, ast.Call) and pf.dotted(c.func) == '_create_batch' and c.args]
